@@ -238,7 +238,7 @@ pub fn c05_world(seed: u64, corpus: &[Program]) -> (World, Dims) {
             j.args = kept;
         }
     }
-    (World { prop: "C05".into(), seed, threads, jobs, sched, note: format!("{:?}", d), log_level, env }, d)
+    (World { prop: "C05".into(), seed, threads, jobs, sched, note: format!("{:?}", d), log_level, env, stdio: 0 }, d)
 }
 
 /// C05 directed pass: program `p` alone on a fresh thread with the k-th hash key derived from `base`.
@@ -572,6 +572,15 @@ pub fn c16_world(seed: u64, corpus: &[Program]) -> World {
     }
     if r.chance(1, 16) {
         w.env = 1 + r.below(crate::job::ENVIRONMENTS.len() as u64) as u8;
+    }
+    if r.chance(1, 10) {
+        // the process's own stdout/stderr (warnings, parse errors are printed there) are broken
+        w.stdio = 1 + r.below(4) as u8;
+        if r.chance(1, 2) && !w.jobs[w.jobs.len() - 1].args.iter().any(|a| a == "-W") {
+            let j = w.jobs.len() - 1;
+            w.jobs[j].args.push("-W".into());
+            w.jobs[j].args.push("all".into());
+        }
     }
     if r.chance(1, 24) && w.jobs.iter().all(|j| j.source.0.len() <= 32 * 1024) {
         w.log_level = 4 + r.below(2) as u8;
